@@ -106,7 +106,7 @@ for _n, _t, _to in [(1, ("quick", "thorough"), 60), (2, ("quick", "thorough"), 1
 
 
 # --- d. documents from token sequences, real conflicting styles: precedence (P) ----------------------------------
-_TOKENS = ["t", "[red]", "[blue]", "[green]", "[/red]", "[/blue]", "[/]", "\\[red]", "[b]", "[/bold]", "u\nv",
+_TOKENS = ["t", "[red]", "[blue]", "[not bold]", "[/red]", "[/blue]", "[/]", "\\[red]", "[b]", "[/bold]", "u\nv",
            "[link=http://e/?q=1&r=2]"]
 _NT = len(_TOKENS)
 _CON = Console(file=io.StringIO(), color_system="truecolor", width=80, force_terminal=True)
@@ -138,11 +138,18 @@ def _doc_ok(ks) -> bool:
     if len(got) != len(want_plain):
         return False
     for i, tags in enumerate(want_tags):
-        want = Style()
+        # the expected combination is computed field by field (not with Style.__add__): a later tag wins where it says something
+        w_color = w_bold = w_link = None
         for tg in tags:
-            want = want + Style.parse(tg)
+            st = Style.parse(tg)
+            if st.color is not None:
+                w_color = st.color
+            if st.bold is not None:
+                w_bold = st.bold
+            if st.link:
+                w_link = st.link
         g = got[i] if got[i] is not None else Style()
-        if (g.color, g.bold, g.link) != (want.color, want.bold, want.link):
+        if (g.color, g.bold, g.link) != (w_color, w_bold, w_link):
             return False
     return True
 
